@@ -75,8 +75,11 @@ func c03Stmts(p c03Params) []*Stmt {
 			upd("v", "", 3),           // 8 shrinking update
 			upd("k", int32(30), 3),    // 9 key-changing update
 			upd("v", "second", 2),     // 10 same row again
+			upd("v", "own", 10),       // 11 in-place update of a row the same transaction may have inserted
+			upd("k", int32(31), 10),   // 12 key change of a row the same transaction may have inserted
 		)
 	}
+	st = append(st, del(10)) // delete of a row the same transaction may have inserted
 	return st
 }
 
@@ -107,9 +110,9 @@ func uniqOK(w *World, s *Stmt) bool {
 
 func c03Domain(td *TableDef, c ColDef) []any {
 	if c.Name == "k" {
-		return []any{int32(1), int32(2), int32(3), int32(10), int32(11), int32(30)}
+		return []any{int32(1), int32(2), int32(3), int32(10), int32(11), int32(30), int32(31)}
 	}
-	return []any{"a1", "a2", "a3", "b2", "n10", "again", "second", ""}
+	return []any{"a1", "a2", "a3", "b2", "n10", "again", "second", "own", ""}
 }
 
 func c03Cfg(p c03Params) *WorldCfg {
